@@ -511,9 +511,6 @@ func (runInfo *runInfoStruct) runForSliceStmt(stmt *ast.ForStmt, value reflect.V
 		if iv.Kind() == reflect.Interface && !iv.IsNil() {
 			iv = iv.Elem()
 		}
-		if iv.Kind() == reflect.Ptr && !iv.IsNil() {
-			iv = iv.Elem()
-		}
 		runInfo.env.DefineValue(stmt.Vars[0], detachValue(iv))
 
 		runInfo.stmt = stmt.Stmt
@@ -601,9 +598,6 @@ func (runInfo *runInfoStruct) runForChanStmt(stmt *ast.ForStmt, value reflect.Va
 		}
 
 		if runInfo.rv.Kind() == reflect.Interface && !runInfo.rv.IsNil() {
-			runInfo.rv = runInfo.rv.Elem()
-		}
-		if runInfo.rv.Kind() == reflect.Ptr && !runInfo.rv.IsNil() {
 			runInfo.rv = runInfo.rv.Elem()
 		}
 
